@@ -902,10 +902,22 @@ func (self *_Compiler) compileArray(p *_Program, sp int, vt reflect.Type) {
 		p.chr(_OP_match_char, ',')
 	}
 
-	/* drop rest of the array */
+	/* drop rest of the array; behind the separator of the last stored element
+	 * another element must follow, a ']' there is a syntax error (the native
+	 * skipper starts in the state behind '[', where ']' is legal) */
+	e := -1
+	if vt.Len() > 0 {
+		p.add(_OP_lspace)
+		e = p.pc()
+		p.chr(_OP_check_char_0, ']')
+	}
 	p.add(_OP_array_skip)
 	w := p.pc()
 	p.add(_OP_goto)
+	if e >= 0 {
+		p.pin(e)
+		p.chr(_OP_match_char, ',') // the byte is ']': reports the invalid char at its position
+	}
 	p.rel(v)
 
 	/* check for pointer data */
